@@ -58,7 +58,7 @@ try:
     place_demo()
 except Exception as e:
     ran.append('place_demo: %s' % e)
-demo = meta['demo_cmd'].replace('/tmp/mut2-' + prop, tree).replace('/tmp/mut-' + prop, tree).replace('<worktree>', tree)
+demo = meta['demo_cmd'].replace('/tmp/mut3-' + prop, tree).replace('/tmp/mut2-' + prop, tree).replace('/tmp/mut-' + prop, tree).replace('<worktree>', tree)
 rc_clean, o_clean = sh(demo, cwd=tree, timeout=900)
 ran.append('demo on clean HEAD: rc=%d' % rc_clean)
 rc, o = sh('git apply %s' % os.path.join(os.path.abspath(mdir), 'patch.diff'), cwd=tree)
